@@ -52,6 +52,14 @@ impl QueryMut for InsertNodesQuery {
         let mut result = QueryResult::default();
         let mut ids = vec![];
         let count = std::cmp::max(self.count, self.aliases.len() as u64);
+
+        if self.aliases.iter().any(|alias| alias.is_empty()) {
+            return Err(DbError::query(
+                DbErrorType::NotAllowed,
+                "Empty alias is not allowed",
+            ));
+        }
+
         let query_ids = match &self.ids {
             QueryIds::Ids(ids) => ids
                 .iter()
